@@ -77,7 +77,12 @@ MoreLeaves(x) ==
         Truth(MCallKw(x, "n_ge", IntV(2))),
         CmpC("eq", MCallKw(x, "n_plus", IntV(-1)), LitI(1)),
         CmpC("eq", IdxK(At(x, "d"), StrV(<<1>>)), LitI(0)),
-        CmpC("lt", IdxK(At(x, "d"), StrV(<<2>>)), At(x, "n")) >>
+        CmpC("lt", IdxK(At(x, "d"), StrV(<<2>>)), At(x, "n")),
+        \* calls whose only positional argument is the falsy member of its sort: it is an argument all the same
+        Truth(MCall(x, "n_ge", IntV(0))),
+        CmpC("eq", MCall(x, "n_plus", IntV(0)), LitI(0)),
+        Truth(MCall(At(x, "s"), "startswith", StrV(<<>>))),
+        CmpC("ge", MCall(At(x, "items"), "count", IntV(0)), LitI(1)) >>
 
 LeavesG1 == CoreLeaves(V(1)) \o MoreLeaves(V(1))
 
@@ -148,7 +153,10 @@ LeavesG7c ==
      InC(At(y, "n"), Concat(At(x, "t")), "in_"),
      InC(At(y, "n"), Concat(At(x, "n")), "in_"),
      InC(y, Concat(At(x, "ref")), "in_"),
-     InC(At(y, "t"), Concat(At(x, "pairs")), "in_") >>      \* inner elements that are themselves iterable stay whole
+     InC(At(y, "t"), Concat(At(x, "pairs")), "in_"),        \* inner elements that are themselves iterable stay whole
+     \* concatenate(flatten(x.pairs)): the flattened elements are themselves collections, their elements are joined
+     InC(At(y, "n"), Concat(Flat(1)), "in_"),
+     InC(At(y, "m"), Concat(Flat(1)), "contains") >>
   \o Some(CoreLeaves(y), 4)
 
 (* ---- G6: sub-queries.  a sub-query over x or over (x, y) used as a     ----*)
